@@ -340,6 +340,18 @@ func (u *Uni) call(objType string, fd *ast.FieldDefinition, ft reflect.Type, arg
 	if u.Ctx == ReturnCtxErr && ctx.Err() != nil {
 		return retErr(ft, ctx.Err())
 	}
+	// resolvers own their arguments: code that normalises an input in place is legal. Write
+	// every pointer argument back to itself (a write the race detector sees if the value is
+	// shared with another call)
+	first := 2 // args[0] is the context, args[1] the parent object (shared by its fields: not ours)
+	if objType == u.Schema.Query.Name || (u.Schema.Mutation != nil && objType == u.Schema.Mutation.Name) || (u.Schema.Subscription != nil && objType == u.Schema.Subscription.Name) {
+		first = 1
+	}
+	for _, a := range args[first:] {
+		if a.Kind() == reflect.Ptr && !a.IsNil() && a.Elem().CanSet() {
+			a.Elem().Set(reflect.ValueOf(a.Elem().Interface()))
+		}
+	}
 	out0 := ft.Out(0)
 	if f := u.Custom[objType+"."+fd.Name]; f != nil {
 		v, err := f(ctx, args)
